@@ -75,8 +75,35 @@ def respell(rng, text):
     return text
 
 
+def once_in_chord_law(ctx, rng, n):
+    """an octave-once mark inside a chord is for the next chord note only: `'c`eg'` sounds like `'c>e<g'` (away from the
+    octave limits), and the first note after the chord is unaffected"""
+    pairs = []
+    for _ in range(n):
+        k = rng.randrange(2, 5)
+        notes = [rng.choice("cdefgab") + rng.choice(["", "", "+", "-"]) for _ in range(k)]
+        j = rng.randrange(0, k)
+        up = rng.random() < 0.5
+        mark, go, back = ("`", ">", "<") if up else ('"', "<", ">")
+        pre = rng.choice(["o5 ", "o4 l8 ", "o6 v90 ", "TR(2) o3 "])
+        post = rng.choice([" a", " c d", " 'ce' g"])
+        suffix = rng.choice(["", "4", "2,80"])
+        a = pre + "'" + "".join(notes[:j]) + mark + notes[j] + "".join(notes[j + 1:]) + "'" + suffix + post
+        b = pre + "'" + "".join(notes[:j]) + go + notes[j] + back + "".join(notes[j + 1:]) + "'" + suffix + post
+        pairs.append((a, b))
+    pairs += [("o5 'c`eg' a", "o5 'c>e<g' a"), ('o5 \'ce"g\' a', "o5 'ce<g>' a")]
+    got = ctx.impl(["compile\t%s\t0" % vlib.enc_text(x) for ab in pairs for x in ab], stall=15)
+    for i, (a, b) in enumerate(pairs):
+        ga, gb = got[2 * i].split("\t")[0], got[2 * i + 1].split("\t")[0]
+        ctx.count("once_in_chord", a)
+        if ga != gb:
+            ctx.oracle_fail("an octave-once mark inside a chord does not act on the next chord note only", "compile\t%s\t0" % vlib.enc_text(a),
+                            "%r -> %s" % (a, ga[-120:]), "%r -> %s" % (b, gb[-120:]), input_text=a)
+
+
 def run(ctx):
     rng = ctx.rng
+    once_in_chord_law(ctx, rng, 60 if ctx.tier == "quick" else 3000)
     n = 1500 if ctx.tier == "quick" else 40000
     asts = [astgen.program(rng) for _ in range(n)]
     spec = ctx.model(["note_spec\t%s" % a for a in asts])
